@@ -32,6 +32,11 @@
 (*     on the value of eps > 0: RareInsensitive (instance filter) compares the optimal   *)
 (*     gain with that of the variant (PD-2)/PD : 2/PD, and the judge record says whether *)
 (*     the exact evaluation of a returned policy is the same on both (`rareok`).         *)
+(*     A rare-but-costly branch (discounted; real row: probability 2^-30 to an absorbing *)
+(*     state paying -c * 2^40, else to another absorbing state paying r) is carried by   *)
+(*     the harness as ONE transition to the second absorbing state with the expected     *)
+(*     one-step reward r - 1024 c (exact up to a relative 2^-30): the model sees an      *)
+(*     ordinary instance, the real MDP the two-branch row.                               *)
 (* (O) oracle: discounted -> MDP!OptimalValue; undiscounted -> Chain!GainOracle (closed  *)
 (*     classes, tree-theorem stationary weights, absorption probabilities, max over the  *)
 (*     deterministic policies).                                                          *)
@@ -248,7 +253,11 @@ Running == phase \in {"eval", "gain", "bias", "done", "cap", "cycle"}
 \* (P0) instance filter: the batch is well formed and has no action-less state.  (MDP!WellFormed with one
 \*      difference: the discount 0 - a legal, fully myopic discount rate - is admitted: 0 <= GN <= GD.)
 WellFormed16(m) ==
-  /\ \A s \in St(m) : \A a \in Avail(m, s) : SumTo([t \in St(m) |-> m.P[s][a][t]], m.N) = m.PD
+  /\ \A s \in St(m) : \A a \in Avail(m, s) :
+        LET tot == SumTo([t \in St(m) |-> m.P[s][a][t]], m.N) IN
+        \* ghost rows of explicitly absorbing states may be cut: msdm does not expand successors of an absorbing
+        \* state that are outside the state list (nothing in the semantics depends on those rows)
+        IF s \in ExplAbs(m) THEN tot <= m.PD ELSE tot = m.PD
   /\ \A s \in St(m), a \in Ac(m), t \in St(m) : m.P[s][a][t] >= 0
   /\ SumTo([s \in St(m) |-> m.p0[s]], m.N) = m.ID
   /\ m.GN >= 0 /\ m.GN <= m.GD /\ m.GD > 0
